@@ -94,6 +94,41 @@ CHECKS = {
              'end becomes possible.',
         note=KERNEL_NOTE + ' disconnect() of all sessions is steered around (known finding F7).',
         design='4/C18'),
+    'C08': dict(
+        technique='property-based testing of the real clients against the real server of the same '
+                  'kind with generated fault scripts injected at the client I/O boundary; '
+                  'lifecycle-grammar oracle',
+        text='Generated (client kind, transports, <=2 faults: HTTP request n refused / error '
+             'status / undecodable, empty, non-OPEN body / hang / dropped after processing; '
+             'WebSocket connect refused; frame n dropped / replaced / swallowed / silence; send '
+             'drops) x application script (sends, clock steps, disconnect by client or server, '
+             'disconnect from inside each handler, calls while disconnected, reconnects); oracle: '
+             'connect() returns or raises ConnectionError in bounded time, one disconnect per '
+             'connection, clean reusable state, wait() returns, no event after the end.',
+        note=KERNEL_NOTE + ' Fake requests / websocket-client / aiohttp session objects are part '
+             'of the trusted base.', design='4/C08'),
+    'C09': dict(
+        technique='property-based testing of the real clients against the real server with '
+                  'generated URLs, send sequences and injected frames; wire-level oracle on '
+                  'everything the client sent and received',
+        text='Generated URLs (scheme, host, port, path, query) x engineio_path x transports x send '
+             'sequences/bursts both ways x injected PINGs with data, NOOPs, unknown types, wrong / '
+             'missing probe answers, silence (WebSocket and polling); oracle: PONG echo in order, '
+             'exactly-once ordered delivery both ways, wire form of binary, request URL form and '
+             'scheme mapping, upgrade only after the probe, silence detected within I+T(+5)+'
+             'request_timeout.',
+        note=KERNEL_NOTE + ' Fake requests / websocket-client / aiohttp session objects are part '
+             'of the trusted base.', design='4/C09'),
+    'C10': dict(
+        technique='property-based testing of real client/server pairs of the same kind in one '
+                  'deterministic world (baton scheduler or virtual-time loop)',
+        text='Generated conversations (bursts of 1..40 sends either way, payload kinds, sends from '
+             'inside the connect handler, idle periods up to 50/300 heartbeat cycles, disconnect by '
+             'either side) x transports x heartbeat settings; oracle: both message logs equal the '
+             "other side's send log, no disconnect while connected, one disconnect on each side "
+             'after either side disconnects.',
+        note=KERNEL_NOTE + ' Only same-kind pairs (threaded/threaded, asyncio/asyncio) are '
+             'exercised; cross-kind pairs are not claimed.', design='4/C10'),
     'C11': dict(
         technique='enumeration of the configuration grid x handler outcomes on fresh servers, '
                   'model oracle; behavioural confirmation of advertised upgrades',
